@@ -11,6 +11,7 @@ RULE = ("NetSpecs with finite-server, non-slotted, non-PS nodes, FIFO/LIFO/SIRO,
         "on-duty servers occupied.  Non-trivial: >= 1 customer with positive wait later served and >= 1 restart path other than "
         "plain departure (unblocking, shift change, pre-emption, renege or class change); distinct by spec digest.")
 ASSUMPTIONS = ["time advances only between events, so the after-event invariant is equivalent to 'starts at the instant a server frees'"]
+TECHNIQUE = "property-based testing: generated networks; invariant 'no free on-duty server while a customer waits' after every event plus coverage audit of waiting intervals"
 WALL = {"quick": 150, "thorough": 540}
 
 
